@@ -224,8 +224,8 @@ PROPS = {
                  quick=ev("^ZZ_C09_", "the C08 world (3-5 workloads, 2-4 policies, optional ANPs / ingress objects, IP ranges) with every relative order of the symbolic ports (multi-range and multi-protocol port sets), exposure on/off; txt and md",
                           "json, csv, dot", models=40)),
             dict(pkg=DIFF, harness="harness/diff", shared="harness/shared", extra=[["pkg/netpol/connlist", "harness/extra_connlist"]],
-                 quick=ev("^ZZ_C09_", "two inputs: workloads a,b (+ new workload / lost workload), a policy with a symbolic TCP range (+ a symbolic UDP port) on each side or none on side 2, IP ranges; txt and md of the diff with names dir1/dir2",
-                          "csv, dot; ingress-controller entries", models=40)),
+                 quick=ev("^ZZ_C09_", "two inputs: workloads a,b (+ new workload / lost workload), a policy with a symbolic TCP range (+ a symbolic UDP port) on each side or none on side 2, IP ranges, optional ingress-controller entries in all three categories; txt and md of the diff with names dir1/dir2",
+                          "csv, dot", models=40)),
         ],
     ),
     "C18": dict(
